@@ -42,8 +42,19 @@ KnownTable ==
      <<"G2", "flatten-default", "C01/Unparsable", "C01-flattened-member-in-default">>,
      <<"G2", "bad-string-default", "C01/RenderPanic", "C01-invalid-default-render-panic">>,
      <<"G2", "unit-default", "C01/RenderPanic", "C01-unit-default-render-panic">> >>
+(* findings that need a particular ingestion mode or settings vector as well: <<family, id,
+   diagnosis, finding, modes, settings vectors>> *)
+AllModes == {"root", "refs", "root+type", "titled-root"}
+KnownTable2 ==
+  << <<"F4", "obj-null", "C01/DuplicateItem", "C01-titled-nullable-root-duplicate", {"titled-root"}, 1 .. 10>>,
+     <<"F4", "enum-null", "C01/DuplicateItem", "C01-titled-nullable-root-duplicate", {"titled-root"}, 1 .. 10>>,
+     <<"G2", "containers", "C01/CompileError", "C01-custom-map-default-needs-fromiterator", AllModes, {4}>> >>
 Known(d) == { KnownTable[i][4] : i \in { j \in DOMAIN KnownTable :
                 KnownTable[j][1] = cur.fam /\ KnownTable[j][2] = cur.id /\ KnownTable[j][3] = d } }
+            \cup { KnownTable2[i][4] : i \in { j \in DOMAIN KnownTable2 :
+                KnownTable2[j][1] = cur.fam /\ KnownTable2[j][2] = cur.id /\ KnownTable2[j][3] = d
+                /\ cur.mode \in KnownTable2[j][5] /\ cur.sidx \in KnownTable2[j][6]
+                /\ (KnownTable2[j][4] = "C01-custom-map-default-needs-fromiterator" => \E i2 \in DOMAIN codes : codes[i2] = "E0277") } }
 
 End == /\ IsEvent("endcase")
        /\ IF Diag = "ok" THEN nbad' = nbad
